@@ -58,11 +58,20 @@ Proof. intros m pid fuel H. apply returns_iff. apply get_page_fonts_total. exact
 Theorem C13_get_pages_alloc_bounded :
   forall d, (get_pages_alloc d <= N.max 4 (N.of_nat (length (d_objects d)) + 1))%N /\
             (let '(h0, y, h1) := hint_probe d in
-             (h0 <= N.of_nat (length (d_objects d)))%N /\ (h1 <= N.of_nat (length (d_objects d)))%N) /\
+             (fst h0 <= snd h0 <= N.of_nat (length (d_objects d)))%N /\
+             (fst h1 <= snd h1 <= N.of_nat (length (d_objects d)))%N) /\
             snd (fst (hint_probe d)) = hd_error (page_iter d).
 Proof.
   intro d. split; [apply get_pages_alloc_bounded|]. split; [apply hint_probe_bounded | apply hint_probe_first].
 Qed.
+
+(* the upper bound size_hint promises is one, from every iterator state and on every graph: never more ids are
+   yielded than promised (std adapters such as Filter::count rely on it) *)
+Theorem C13_size_hint_upper_sound :
+  (forall m limit kids stack,
+     (N.of_nat (length (iter limit m kids stack)) <= snd (size_hint m limit kids stack))%N) /\
+  (forall d, (N.of_nat (length (page_iter d)) <= snd (fst (fst (hint_probe d))))%N).
+Proof. split; [exact size_hint_upper_sound | exact hint_upper_sound]. Qed.
 
 (* (5) annotations, images, get_dict_in_dict, get_font_encoding are compositions of the total accessors:
    their models are option-valued functions (no loop, no fuel, no panic site after e154731). *)
@@ -111,11 +120,13 @@ Qed.
 Theorem C13_get_pages_refuted :
   (exists d, fst (get_pages_v0 d) = Panic PCapacity) /\
   (exists d, fst (get_pages_v0 d) = Panic POverflow) /\
-  (exists d, length (d_objects d) = 4 /\ snd (get_pages_v0 d) = 35184372088833%N).
+  (exists d, length (d_objects d) = 4 /\ snd (get_pages_v0 d) = 35184372088833%N) /\
+  (exists d ub, hint_upper_v0 d = Ok ub /\ (ub < N.of_nat (length (page_iter d)))%N).
 Proof.
-  split; [exists w_count_huge; exact v0_get_pages_capacity|].
-  split; [exists w_count_sum; exact v0_get_pages_overflow|].
-  exists w_count_alloc. destruct v0_get_pages_alloc as [H1 H2]. split; assumption.
+  split; [|split; [|split]]; [| | |exists w_count_zero, 0%N; destruct v0_hint_upper_wrong as [H1 H2]; rewrite H2; split; [exact H1 | reflexivity]].
+  - exists w_count_huge; exact v0_get_pages_capacity.
+  - exists w_count_sum; exact v0_get_pages_overflow.
+  - exists w_count_alloc. destruct v0_get_pages_alloc as [H1 H2]. split; assumption.
 Qed.
 
 (* get_toc / get_outlines: index panic on `Dest []`; TRUE divergence (no fuel suffices) on an item whose Next or
@@ -179,6 +190,7 @@ Print Assumptions C13_get_page_content_total.
 Print Assumptions C13_get_page_resources_total.
 Print Assumptions C13_get_page_fonts_total.
 Print Assumptions C13_get_pages_alloc_bounded.
+Print Assumptions C13_size_hint_upper_sound.
 Print Assumptions C13_page_queries_return.
 Print Assumptions C13_get_named_destinations_total.
 Print Assumptions C13_get_outlines_total.
